@@ -48,13 +48,22 @@ T = {
          "C12_parser_stores_rewrite; list lemmas over the header-collection model (Proofs/HeaderAlgebra.v).",
          "set_header's in-place algorithm in rhymessage is modelled at specification level (first match keeps its position and name); the run compares the final header list order-sensitively."),
  "C13": ("Theorem C13_decode_inverts_every_stack: for every stack over {gzip, zlib-deflate, raw-deflate} and every spelling the crate's tokeniser maps to those names, decode_body "
-         "returns the original, given three stated facts about flate2 (each decoder inverts its encoders; zlib streams start with a valid zlib header; encoder-produced raw streams do not). "
-         "Induction on the coding list. The flate2 facts are sampled: levels 0-9, empty/tiny/random/repetitive bodies up to 1.1 MB, depth <= 3, gzip header options.", "inflate is an oracle."),
+         "returns the original, given three stated facts about the stream decoders (each inverts its encoders; zlib streams start with a valid zlib header; encoder-produced raw streams do not); "
+         "induction on the coding list, for ANY decoders. With the executable model of flate2/miniz_oxide (Model/Inflate.v: raw inflate with miniz's table rules, zlib, gzip incl. all header options, "
+         "CRC-32, Adler-32) in place of the parameters, C13_stored_encoders_inverted proves the three facts -- and hence the inversion of every stack over every body -- for the stored-block encoders "
+         "(DEFLATE level 0, any partition into blocks, bare / zlib with any valid header / gzip with any header the parser accepts), with no hypothesis left. For Huffman-coded blocks (levels 1-9) "
+         "the facts stay hypotheses, sampled: levels 0-9, all strategies, empty/tiny/random/repetitive/pre-compressed bodies up to 1.1 MB, depth <= 3, gzip header options, decode-after-failed-decode histories.",
+         "PARTIAL for Huffman-coded blocks: no encoder is modelled for them. The inflate model is tied to the real flate2 (called directly, not through rhymuweb) on every stream of every run (counts in the evidence) and by tools/fuzz_inflate.py (410k streams incl. hand-assembled dynamic blocks, 0 disagreements)."),
  "C14": ("Theorems C14_success (kept ++ undone split of the token list, body = undo of exactly the undone suffix, one Content-Encoding header with the kept tokens joined by ', ' or none, "
          "single Content-Length = |body|, all other headers unchanged in order), C14_failure_atomic, C14_succeeds_when_undoable; for every behaviour of the three decoders (parameters).", ""),
- "C15": ("Theorems C15_outer_decoder_error_is_failure, C15_truncation_fails, C15_success_is_full_decoder_output, C15_zlib_never_falls_back: the crate's glue cannot bypass the containers' "
-         "checks. The integrity checks themselves are flate2's: sampled by every truncation point, every byte of signature / CRC-32 / ISIZE / Adler-32 substituted, bit flips.",
-         "PARTIAL: 'flate2 rejects every truncation / altered integrity field' are hypotheses of the theorems, not proved."),
+ "C15": ("For ANY stream decoders (parameters): C15_outer_decoder_error_is_failure, C15_truncation_fails, C15_success_is_full_decoder_output, C15_zlib_never_falls_back -- the crate's glue cannot bypass "
+         "the containers' checks. For the executable model of flate2/miniz_oxide (Model/Inflate.v) no hypothesis is left: the decoders are proved LOCAL (they read left to right, byte by byte: same answer whatever "
+         "follows the bytes they fetched, Eof on every strict prefix of them; Proofs/InflateLocal.v, by induction over fuel, for every block type, table and symbol sequence), hence "
+         "C15_truncation_fails_flate2_model (every strict truncation of an exact gzip member / zlib stream / bare stream makes decode_body fail), C15_gzip_checks_applied and C15_zlib_checks_applied "
+         "(success pins the stored CRC-32, length and Adler-32 to the returned content; replacing those bytes by any others that encode different values fails, whatever follows), C15_gzip_signature, "
+         "C15_decoding_ignores_what_follows. Sampled in addition: every truncation point, every byte of signature / CRC-32 / ISIZE / Adler-32 substituted, bit flips across the stream, 64-300 KB bodies.",
+         "The model of flate2 is tied to the real library (called directly) on every stream of every run and by tools/fuzz_inflate.py; 'a bit flip in the compressed data that still inflates is caught by the checksum' "
+         "is exactly the checksum comparison proved here plus the CRC/Adler arithmetic, whose collision resistance is not a theorem. Known finding K5 (a damaged zlib header is re-read as a bare stream) stays."),
  "C16": ("Theorems C16_text_only_for_text_types, C16_nothing_without_content_type / _for_non_text / _for_unknown_charset, C16_utf8_exact (utf8_decode succeeds iff valid and then "
          "re-encoding gives the body: no replacement character, BOM kept), C16_iso_8859_1_total (one character per byte, ASCII fixed). The two concrete decoders are compared with encoding_rs "
          "exhaustively for 0-1 (quick) / 0-2 (thorough) byte bodies and structurally for multi-byte sequences.", "for_label and the other encodings are an oracle."),
